@@ -114,7 +114,7 @@ func gxRecord(c *core.Ctx, progs []*genexec.Prog) *gxTrace {
 			}
 			setup.WriteString("\t" + p.Method() + "\n")
 			shared.WriteString(p.Decls())
-			fmt.Fprintf(&reg, "\t%q: X%s,\n", p.Name, p.Name)
+			fmt.Fprintf(&reg, "\t%q: %s,\n", p.Name, p.RegistryExpr())
 		}
 		setup.WriteString("}\n")
 		reg.WriteString("}\n")
@@ -156,7 +156,7 @@ func gxRecord(c *core.Ctx, progs []*genexec.Prog) *gxTrace {
 			}
 			setup.WriteString("\t" + p.Method() + "\n")
 			shared.WriteString(p.Decls())
-			fmt.Fprintf(&reg, "\t%q: X%s,\n", p.Name, p.Name)
+			fmt.Fprintf(&reg, "\t%q: %s,\n", p.Name, p.RegistryExpr())
 		}
 		setup.WriteString("}\n")
 		reg.WriteString("}\n")
